@@ -38,8 +38,10 @@ EXPLANATION = (
     'float() ...) because private state has no type contract. (R15.8) the from_dict classmethods of the std-type classes '
     'set attributes of the restored object only from the stored dictionary or under an absence test (not hasattr / key '
     'not in d); an unconditional store of a constant (sector reset to ALL) is a restored object that differs from the '
-    "saved one. Not decided: equality of a loaded net with the original (runtime; pandapower's encoder/decoder are "
-    'trusted).')
+    'saved one. (R15.9) loading converts, and converting calls add_new_component for every default component: '
+    'net[<table>] is written (item store or net.update) only under path conditions that are unsatisfiable together with '
+    '`table in net` and `not overwrite` (propositional check). Not decided: equality of a loaded net with the original '
+    "(runtime; pandapower's encoder/decoder are trusted).")
 ASSUMPTIONS = ["pandapower's PPJSONEncoder/PPJSONDecoder round-trip JSON-native values, numpy arrays, pandas objects and registered classes",
                "user-defined classes are outside the tree"]
 TECHNIQUE = "class-attribute provenance classification, writer/reader key-table agreement, registry agreement"
